@@ -454,10 +454,18 @@ func checkC19(p *load.Program, r *kit.Report) {
 			}
 			if inLoopAt == nil {
 				badW = "AtHeight is not asked inside the walk"
-			} else if header, body := loopBodyEntry(f, inLoopAt); header == nil || body == nil {
+			} else if header, loop := innermostLoop(f, inLoopAt.Block()); header == nil {
 				badW = "the walk is not a loop"
 			} else {
-				loop := naturalLoop(header)
+				var body *ssa.BasicBlock
+				for _, sc := range header.Succs {
+					if loop[sc] && sc != header {
+						body = sc
+					}
+				}
+				if body == nil {
+					body = header
+				}
 				var keeps []ssa.Instruction
 				kit.AllInstrs(f, func(in ssa.Instruction) {
 					c, ok := in.(*ssa.Call)
